@@ -302,10 +302,55 @@ func GenSlice(strs *rapid.Generator[string]) *rapid.Generator[Value] {
 	})
 }
 
+// Valuer is a user type implementing slog.LogValuer (Value() slog.Attr).
+// It holds plain data only: the fallback formatter prints the struct with %v, and a pointer inside it would put an
+// address into the record.
+type Valuer struct {
+	K string
+	V any
+	G bool // it stands for a group (K holding one member n=V) instead of the plain attribute K=V
+}
+
+func (v Valuer) Value() slog.Attr {
+	if v.G {
+		return slog.Group(v.K, "n", v.V)
+	}
+	return slog.NewAttr(v.K, v.V)
+}
+
+// DocUser is the sample marshaller of the package documentation (PrintCtx.Begin): a user type that prints itself
+// with the encoder's Add... methods.
+type DocUser struct {
+	Name, Email string
+	CreatedAt   int64
+}
+
+func (u DocUser) MarshalSlogObject(enc *slog.PrintCtx) error {
+	enc.Begin()
+	enc.AddString("name", u.Name)
+	enc.AddComma()
+	enc.AddString("email", u.Email)
+	enc.AddComma()
+	enc.AddInt64("createdAt", u.CreatedAt)
+	enc.End(false)
+	return nil
+}
+
+// GenDocUser draws a DocUser value (kind "doc-marshaller").
+func GenDocUser(strs *rapid.Generator[string]) *rapid.Generator[Value] {
+	return rapid.Custom(func(t *rapid.T) Value {
+		return Value{"doc-marshaller", DocUser{strs.Draw(t, "userName"), strs.Draw(t, "userEmail"), rapid.Int64().Draw(t, "createdAt")}}
+	})
+}
+
 // GenFallback draws values of kinds only the fallback formatter handles.
 func GenFallback(strs *rapid.Generator[string]) *rapid.Generator[Value] {
 	return rapid.Custom(func(t *rapid.T) Value {
-		switch rapid.IntRange(0, 9).Draw(t, "fb") {
+		switch rapid.IntRange(0, 11).Draw(t, "fb") {
+		case 10: // a user type with the exported LogValuer interface, standing for a plain attribute
+			return Value{"logvaluer", Valuer{K: strs.Draw(t, "lvk"), V: strs.Draw(t, "lvv")}}
+		case 11: // ... for a group
+			return Value{"logvaluer", Valuer{K: strs.Draw(t, "lvk"), V: rapid.Int().Draw(t, "lvn"), G: true}}
 		case 7:
 			n := rapid.IntRange(0, 3).Draw(t, "nerrs")
 			es := make([]error, n)
